@@ -543,3 +543,25 @@ Proof.
   destruct (mapM gai16 vals) as [ws| | |] eqn:E; simpl; try reflexivity.
   destruct ws; [|reflexivity]. apply mapM_length in E. destruct vals; [contradiction | discriminate].
 Qed.
+
+(* ------------------------------------------------------------------ conjunctions used by Props/C10.v *)
+Lemma cidict_wellformed (V : Type) (low : str -> str) :
+  wf V low [] /\ (forall k v d, wf V low d -> wf V low (set low k v d)) /\ (forall l, wf V low (of_items low l))
+  /\ (forall d, wf V low d -> NoDup (map low (keys d))).
+Proof. exact (conj (wf_empty V low) (conj (wf_set V low) (conj (wf_of_items V low) (keys_distinct_folded V low)))). Qed.
+
+Lemma skip_stops_both :
+  (forall s c r, skip s = c :: r -> is_space c = false /\ c <> semicolon) /\
+  (forall c r, is_space c = false -> c <> semicolon -> skip (c :: r) = c :: r).
+Proof. exact (conj skip_stops skip_fixed). Qed.
+
+Lemma register_case_both :
+  (forall (low : str -> str) a b lbl, low a = low b ->
+     try_as_register low (RSym a lbl) = try_as_register low (RSym b lbl) /\ try_accumulator low (RSym a lbl) = try_accumulator low (RSym b lbl)) /\
+  (forall mask name lbl, try_as_register ascii_lower_str (RSym (recase mask name) lbl) = try_as_register ascii_lower_str (RSym name lbl)).
+Proof. exact (conj register_case_irrelevant register_recase). Qed.
+
+Lemma grouping_both env dot un bin :
+  (forall f e, eval env dot un bin (regroup f e) = eval env dot un bin e) /\
+  (forall e, eval env dot un bin (ungroup e) = eval env dot un bin e).
+Proof. exact (conj (eval_regroup env dot un bin) (eval_ungroup env dot un bin)). Qed.
